@@ -304,6 +304,10 @@ func genRange(c *ctx) {
 		}
 		end := start + size - 1
 		lease := leases[c.rng.Intn(len(leases))]
+		if c.rng.Intn(12) == 0 {
+			// durations that cannot be announced as an unsigned 32-bit number of seconds (D21), and the two ends of what can
+			lease = []int64{-3600e9, -1, -500000000, -499999999, 4294967295e9, 4294967295e9 + 499999999, 4294967295e9 + 500000000, 4294967296e9, 4294969200e9, 0}[c.rng.Intn(10)]
+		}
 		r := c.rng.Intn(25)
 		if r == 0 {
 			end = start // a one-address range is rejected at start-up
